@@ -41,10 +41,14 @@ P_FEW = ["r0.5,z-1,s1", "r3,z2,s0.1"]
 P_ALL = list(PLACEMENTS)
 
 # family (lattice size, vertex count) -> placements, per tier.  thorough is a strict superset of quick.
+# (heaviest families first, so that the dynamic pool ends on light cases)
 FAMILIES = {
-    "quick": [((3, k), P_ALL_QUICK) for k in (3, 4, 5, 6)] + [((4, 3), P_ALL_QUICK), ((4, 4), P_ALL_QUICK), ((4, 5), P_FEW)],
-    "thorough": [((3, k), P_ALL) for k in (3, 4, 5, 6, 7, 8)] + [((4, k), P_ALL) for k in (3, 4, 5)] + [((4, 6), P_SOME)],
+    "quick": [((4, 5), P_FEW), ((4, 4), P_ALL_QUICK), ((4, 3), P_ALL_QUICK)] + [((3, k), P_ALL_QUICK) for k in (6, 5, 4, 3)],
+    "thorough": [((4, 6), P_SOME)] + [((4, k), P_ALL) for k in (5, 4, 3)] + [((3, k), P_ALL) for k in (8, 7, 6, 5, 4, 3)],
 }
+# a bucket of a big family is cut into SLICES[(n, k)] cases (polygon index modulo) to keep the cases comparable in weight
+SLICES = {(4, 5): 2, (4, 6): 8}
+CHUNK = 1
 
 ALPHABET = {
     "polygons": "ALL simple polygons (no crossing/touching of non-adjacent edges, 180-degree vertices allowed) with k vertices on the "
@@ -63,7 +67,7 @@ BOUND = {
     "quick": "all simple polygons: 3x3 lattice 3..6 vertices and 4x4 lattice 3..4 vertices x 6 placements, 4x4 5 vertices x 2 placements; all 2k vertex orders; full u lattice",
     "thorough": "all simple polygons: 3x3 lattice 3..8 vertices and 4x4 lattice 3..5 vertices x 10 placements, 4x4 6 vertices x 5 placements; all 2k vertex orders; full u lattice; mesh primitive",
 }
-RULE = ("one case per (lattice, vertex count, first two canonical vertices, placement) bucket; inside it every simple polygon x every "
+RULE = ("one case per (lattice, vertex count, first two canonical vertices, slice, placement) bucket; inside it every simple polygon x every "
         "rotation x both directions is constructed on the real code and compared with exact rational geometry, and the selection map is "
         "probed on the whole u lattice; the real code of a case runs in a forked child of the pool worker (an out-of-range triangle index may "
         "kill the process); the u values inside the rounding band of the total area are evaluated last and only up to the first failure of the case; "
@@ -107,8 +111,10 @@ def cases(tier):
     for (n, k), places in FAMILIES[tier]:
         for f, s in PG.buckets(n, k):
             for pl in places:
-                out.append({"lat": n, "k": k, "first": f, "second": s, "place": pl, "mesh": (tier == "thorough" and pl == "r3,z2,s1"),
-                            "label": "bucket:" + _coord_class(pl)})
+                m = SLICES.get((n, k), 1)
+                for part in range(m):
+                    out.append({"lat": n, "k": k, "first": f, "second": s, "slice": [part, m], "place": pl,
+                                "mesh": (tier == "thorough" and pl == "r3,z2,s1"), "label": "bucket:" + _coord_class(pl)})
     return out
 
 
@@ -475,7 +481,7 @@ def run_case(case):
             if "harness_error" in p:
                 return p
     acc = _merge(parts + [extra.dump()])
-    outcome = (case["lat"], case["k"], case["first"], case["second"], case["place"], acc.nev, tuple(sorted(acc.sigs)))
+    outcome = (case["lat"], case["k"], case["first"], case["second"], tuple(case.get("slice", ())), case["place"], acc.nev, tuple(sorted(acc.sigs)))
     return {"viol": acc.viol, "classes": acc.classes, "outcome": outcome, "n": max(acc.nev, 1), "states": acc.states,
             "transitions": max(acc.trans, 1), "nontrivial": acc.nontrivial}
 
@@ -488,8 +494,9 @@ def _body(case, skip, send, progress):
     acc = _Acc()
     V, classes = acc.V, acc.classes
 
-    _mods["seed"](17 + 31 * case["first"] + 977 * case["second"] + 7919 * k + 104729 * n)
-    polys = list(PG.enumerate_bucket(n, k, case["first"], case["second"]))
+    _mods["seed"](17 + 31 * case["first"] + 977 * case["second"] + 7919 * k + 104729 * n + 1299709 * case.get("slice", [0, 1])[0])
+    part, m = case.get("slice", [0, 1])
+    polys = [P for i, P in enumerate(PG.enumerate_bucket(n, k, case["first"], case["second"])) if i % m == part]
     classes["coords:" + cclass] += 1
     late = []     # (voxel, shape, desc, ref, cum, tris, stored, [(label, u)]) : evaluated last, see below
     placed = []
